@@ -7,6 +7,8 @@ with identical coordinates, and the recorded indexes must lead back to that cell
 """
 import json
 import os
+
+import numpy
 import warnings
 
 import shapefile
@@ -68,6 +70,14 @@ def check_spec(spec, ctx):
         ctx.check(back == n, f"C15.{fmt}.native_index",
                   lambda: f"{fmt}: feature {k} records index {index!r} which is cell {back}, "
                   f"not cell {n}")
+        # ... and against the reference model (row-major position on the dataset's own face
+        # grid), not only against emsarray's inverse of its own conversion
+        numbers = [int(v) for v in (native if isinstance(native, tuple) else (native,))
+                   if isinstance(v, (int, numpy.integer)) and not isinstance(v, bool)]
+        want_numbers = list(refmodel.native_components(spec, "face", n))
+        ctx.check(numbers == want_numbers, f"C15.{fmt}.native_index",
+                  lambda: f"{fmt}: feature {k} (cell {n}) records index {index!r}; on the dataset's "
+                  f"face grid that cell is at {want_numbers}")
 
     with specs.scratch_dir() as tmp, warnings.catch_warnings():
         warnings.simplefilter("ignore")
